@@ -10,7 +10,7 @@ fn parse_nmea_line(parser: &mut AisParser, line: &[u8]) -> Result<(), ais::error
     if let AisFragments::Complete(sentence) = sentence {
         println!(
             "{:?}\t{:?}",
-            lib::std::str::from_utf8(line).unwrap(),
+            lib::std::string::String::from_utf8_lossy(line),
             sentence.message
         );
     }
@@ -28,7 +28,11 @@ fn main() {
             .map(|line| line.unwrap())
             .for_each(|line| {
                 parse_nmea_line(&mut parser, &line).unwrap_or_else(|err| {
-                    eprintln!("{:?}\t{:?}", lib::std::str::from_utf8(&line).unwrap(), err);
+                    eprintln!(
+                        "{:?}\t{:?}",
+                        lib::std::string::String::from_utf8_lossy(&line),
+                        err
+                    );
                 });
             });
     }
